@@ -61,7 +61,8 @@ def column(draw):
 @st.composite
 def table(draw):
     n = draw(st.integers(1, 6))
-    ns = draw(st.lists(names.filter(lambda s: s != "id" and not s.endswith("_id") and not s.endswith("_name")), min_size=n, max_size=n, unique=True))
+    # names that the primary-key heuristic does NOT react to (it looks for "_name", "_id", "id_" anywhere, or "id")
+    ns = draw(st.lists(names.filter(lambda s: s != "id" and "_id" not in s and "_name" not in s and "id_" not in s), min_size=n, max_size=n, unique=True))
     cols = [draw(column()) for _ in ns]
     pk = draw(st.sampled_from(["none", "explicit", "inferable"]))
     if pk == "explicit":
@@ -69,7 +70,7 @@ def table(draw):
         cols[i][1]["doc"] = "[PK] " + cols[i][1]["doc"]
     elif pk == "inferable":
         i = draw(st.integers(0, n - 1))
-        ns[i] = draw(st.sampled_from(["id", ns[i] + "_id", ns[i] + "_name"]))
+        ns[i] = draw(st.sampled_from(["id", ns[i] + "_id", ns[i] + "_name", "id_" + ns[i], ns[i] + "_id_x"]))
         if len(set(ns)) != len(ns):
             ns[i] = ns[i] + "x_id"
     fk = False
